@@ -182,7 +182,7 @@ def t_format(rec, seed, tier, name):
                 secret = secret.decode("utf-8")
             except UnicodeDecodeError:
                 pass
-        case = _disp(name, draw(S.settings(name)), ctx, secret)
+        case = _disp(name, draw(S.settings(name, allow_bare=True)), ctx, secret)
         if f.base == "bsdi_crypt" and draw(st.integers(0, 3)) == 0:
             case["settings"]["rounds"] = max(2, case["settings"]["rounds"] - 1)  # even: not reachable through using()
             case["verify_only"] = True
